@@ -96,6 +96,11 @@ def constructed(rng):
                 for sg in (1, -1):
                     op = rng.choice(("round", "cround"))
                     out.append("%s %s %d" % (op, G.fD(sg * a, p), p - s))
+    # decision boundary of division-free divisibility tests (x * inverse(5^n) mod 2^w against floor((2^w - 1) / 5^n))
+    for c, n_ in G.modinv_boundary_all(rng):
+        p = rng.randrange(n_, 19)
+        for sgn in (1, -1):
+            out.append("%s %s %d" % (rng.choice(("round", "cround")), G.fD(sgn * c, p), p - n_))
     # seams of the split at s digits for every s up to 38 (quotient at floor(T/10^s) +- 2, remainder 0 / 1 / all nines / half)
     for sh in range(1, 39):
         for c in G.split_values(rng, sh, 3):
